@@ -236,8 +236,10 @@ impl<'p> CoroutinePool<'p> {
 
     fn do_clean(&mut self) {
         // clean up remaining wait tasks
-        for r in &self.waits {
-            let task_id = *r.key();
+        // (snapshot the ids first: `notify` removes from `waits`, which must not happen
+        // while iterating over it, that deadlocks on the map's shard lock)
+        let task_ids: Vec<u64> = self.waits.iter().map(|r| *r.key()).collect();
+        for task_id in task_ids {
             #[cfg(feature = "verif")]
             crate::verif::point("clean:waiter");
             _ = self
